@@ -17,3 +17,5 @@ def check(ctx):
     kernel.analyze(ctx, {"C12.d"})
     # 'unaffected by peeks': purity of the peek path (shared with C11)
     cursor.analyze(ctx, {"C11.a"})
+    from .common import cache_foundation
+    cache_foundation(ctx)
